@@ -1,6 +1,7 @@
 import Litep2pVerif.Common.Parse
 import Litep2pVerif.Generated.Consts
 import Litep2pVerif.Model.Addr.Manager
+import Litep2pVerif.Model.Addr.Listener
 /-!
 Line-protocol driver for the address-book model (C10).
 
@@ -114,10 +115,15 @@ def parseAddr (s : String) : Option (List (Comp × String)) :=
   | "" :: toks => if toks.isEmpty then none else parseComps toks
   | _ => none
 
+/-- Ports chosen by the operating system are written `@k`; the driver represents `@k` as `portBase + k`. -/
+def portBase : Nat := 100000
+
+def showPort (p : Nat) : String := if portBase ≤ p then "@" ++ toString (p - portBase) else toString p
+
 def renderComp (names : Names) (c : Comp) : String :=
   match c with
-  | .tcp p => "/tcp/" ++ toString p
-  | .udp p => "/udp/" ++ toString p
+  | .tcp p => "/tcp/" ++ showPort p
+  | .udp p => "/udp/" ++ showPort p
   | .p2p q => "/p2p/P" ++ toString q
   | .ws => "/ws"
   | .wss => "/wss"
@@ -133,6 +139,13 @@ def renderAddr (names : Names) (a : Multiaddr) : String := String.join (a.map (r
 structure State where
   mgr : Option Mgr := none
   names : Names := []
+  /-- Listener part: listeners of the last `bind` and its `DialAddresses`. -/
+  bound : List Bound := []
+  dialAddrs : Dial := .noReuse
+  /-- Number of `@k` ports known so far. -/
+  nports : Nat := 0
+  /-- `PublicAddresses` of the manager. -/
+  pub : List Multiaddr := []
 
 def init : State := {}
 
@@ -250,6 +263,178 @@ def searchAddKnown (names : Names) (sc : Scores) (target : Option (List String))
     | some s' => s'
     | none => dflt
 
+
+/-! ## Listener part (`bind`, `localdial`, `accept`, `dns`, `resolve`) -/
+
+/-- Replace `/tcp/@k` and `/udp/@k` by the driver's numeric form; `none` if `k` is not a known port. -/
+def substPorts (nports : Nat) (s : String) : Option String :=
+  let rec go : List String → Option (List String)
+    | [] => some []
+    | t :: rest =>
+      if t.startsWith "@" then
+        match (t.drop 1).toString.toNat? with
+        | some k => if k < nports then (go rest).map (fun r => toString (portBase + k) :: r) else none
+        | none => none
+      else (go rest).map (fun r => t :: r)
+  (go (s.splitOn "/")).map (fun l => "/".intercalate l)
+
+def State.laddr (st : State) (tok : String) : Option (State × Multiaddr) :=
+  (substPorts st.nports tok).bind st.addr
+
+def laddrsOf (st : State) : List String → Option (State × List Multiaddr)
+  | [] => some (st, [])
+  | t :: ts =>
+    match st.laddr t with
+    | none => none
+    | some (st', a) => (laddrsOf st' ts).map fun (st'', as) => (st'', a :: as)
+
+/-- Text of an IP address (from the table of first appearances). -/
+def ipText (names : Names) (ip : IpAddr) : String :=
+  match ip with
+  | .v4 a => if a.val == 0 then "0.0.0.0" else
+      match names.find? (fun e => e.1 == Comp.ip4 a) with
+      | some e => (e.2.drop 5).toString
+      | none => "?"
+  | .v6 a => if a.val == 0 then "::" else
+      match names.find? (fun e => e.1 == Comp.ip6 a) with
+      | some e => (e.2.drop 5).toString
+      | none => "?"
+
+def showSock (names : Names) (s : SockAddr) : String :=
+  match s.ip with
+  | .v4 _ => ipText names s.ip ++ ":" ++ showPort s.port
+  | .v6 _ => "[" ++ ipText names s.ip ++ "]:" ++ showPort s.port
+
+/-- Parse a bare IP address, recording its text. -/
+def State.ip (st : State) (txt : String) : Option (State × IpAddr) :=
+  let reg (st : State) (c : Comp) (t : String) : State :=
+    { st with names := if st.names.any (fun x => x.1 == c) then st.names else st.names ++ [(c, t)] }
+  if txt.contains ':' then (parseIp6 txt).map fun ip => (reg st (.ip6 ip) ("/ip6/" ++ txt), .v6 ip)
+  else (parseIp4 txt).map fun ip => (reg st (.ip4 ip) ("/ip4/" ++ txt), .v4 ip)
+
+def ipsOf (st : State) : List String → Option (State × List IpAddr)
+  | [] => some (st, [])
+  | t :: ts =>
+    match st.ip t with
+    | none => none
+    | some (st', a) => (ipsOf st' ts).map fun (st'', as) => (st'', a :: as)
+
+/-- `key=value` fields of an observation. -/
+def obsField (obs : Option String) (key : String) : Option String :=
+  obs.bind fun o => (o.splitOn " ").findSome? fun t =>
+    if t.startsWith (key ++ "=") then some (t.drop (key.length + 1)).toString else none
+
+/-- `ip:port` / `[ip]:port` as text pair. -/
+def splitSock (s : String) : Option (String × String) :=
+  if s.startsWith "[" then
+    match (s.drop 1).toString.splitOn "]:" with
+    | [ip, p] => some (ip, p)
+    | _ => none
+  else match s.splitOn ":" with
+    | [ip, p] => some (ip, p)
+    | _ => none
+
+def parsePortTok (p : String) : Option Nat :=
+  if p.startsWith "@" then (p.drop 1).toString.toNat?.map (portBase + ·) else p.toNat?
+
+/-- The operating system's answers, reconstructed from the observed list of bound sockets: each
+bind attempt (in order) succeeded iff the next observed socket is the one it asked for. -/
+def osFrom (targets : List SockAddr) (seen : List (IpAddr × Nat)) : List (Option Nat) :=
+  match targets, seen with
+  | [], _ => []
+  | _ :: ts, [] => none :: osFrom ts []
+  | t :: ts, (ip, p) :: more =>
+    if ip == t.ip && (t.port == 0 || t.port == p) then some p :: osFrom ts more
+    else none :: osFrom ts ((ip, p) :: more)
+
+def showBind (st : State) (bs : List Bound) (d : Dial) (ifacesTxt : String) : String :=
+  let back := (reportedAddrs bs).map fun m =>
+    match tcpParse m with
+    | .ok ⟨.ip4 i, p, none⟩ => showSock st.names ⟨.v4 i, p⟩
+    | .ok ⟨.ip6 i, p, none⟩ => showSock st.names ⟨.v6 i, p⟩
+    | .ok ⟨_, _, some _⟩ => "peer"
+    | .ok _ => "dns"
+    | .error _ => "err"
+  "bound=[" ++ ",".intercalate (bs.map (fun b => showSock st.names b.sock)) ++ "] listen=" ++
+    showAddrs st.names (reportedAddrs bs) ++ " back=[" ++ ",".intercalate back ++ "] dial=" ++
+    (match d with
+     | .noReuse => "noreuse"
+     | .reuse l => "reuse:[" ++ ",".intercalate (l.map (showSock st.names)) ++ "]") ++
+    " ifaces=" ++ ifacesTxt
+
+def stepListener (st : State) (ts : List String) (obs : Option String) : Option (State × String) :=
+  match ts with
+  | "bind" :: rest =>
+    let flags := rest.takeWhile (fun t => !t.startsWith "/")
+    let addrToks := rest.drop flags.length
+    match arg? "reuse" flags, arg? "nodelay" flags, laddrsOf st addrToks with
+    | some reuse, some _, some (st, addrs) =>
+      -- observed environment: bound sockets and interface addresses
+      let boundToks := ((obsField obs "bound").bind bracketItems).getD []
+      let ifTxt := (obsField obs "ifaces").getD "-"
+      let ifToks : Option (List String) := bracketItems ifTxt
+      let (st, seen) := boundToks.foldl (fun (acc : State × List (IpAddr × Nat)) t =>
+        match splitSock t with
+        | some (ipT, pT) =>
+          match acc.1.ip ipT, parsePortTok pT with
+          | some (st', ip), some p => (st', acc.2 ++ [(ip, p)])
+          | _, _ => acc
+        | none => acc) (st, [])
+      let (st, ifaces) : State × Option (List IpAddr) := match ifToks with
+        | none => (st, none)
+        | some toks => match ipsOf st toks with
+          | some (st', l) => (st', some l)
+          | none => (st, some [])
+      let targets := addrs.filterMap bindTarget
+      let os := osFrom targets seen
+      let bs := bindAll ifaces os addrs
+      let d := dialAddresses (reuse == "1") bs
+      let newPorts := seen.foldl (fun n e => if portBase ≤ e.2 then max n (e.2 - portBase + 1) else n) st.nports
+      let st := { st with bound := bs, dialAddrs := d, nports := newPorts }
+      some (st, showBind st bs d ifTxt)
+    | _, _, _ => some (st, "bad-op")
+  | ["localdial", ipT] =>
+    match st.ip ipT with
+    | none => some (st, "bad-op")
+    | some (st, ip) =>
+      match localDial st.dialAddrs ip with
+      | .ok none => some (st, "ok none")
+      | .ok (some s) => some (st, "ok " ++ showSock st.names s)
+      | .error _ => some (st, "err")
+  | ["accept", k] =>
+    match k.toNat? with
+    | none => some (st, "bad-op")
+    | some k =>
+      match (reportedSockets st.bound)[k]? with
+      | none => some (st, "none")
+      | some s => some (st, "ok " ++ showSock st.names s ++ " peer=1")
+  | ["dns", _, "fail"] => some (st, "ok")
+  | ["dns", _, a, aaaa] =>
+    let okA := a == "-" || (a.splitOn ",").all (fun x => (parseIp4 x).isSome)
+    let okB := aaaa == "-" || (aaaa.splitOn ",").all (fun x => x.contains ':' && (parseIp6 x).isSome)
+    some (st, if okA && okB then "ok" else "bad-op")
+  | ["resolve", a] =>
+    match st.laddr a with
+    | none => some (st, "bad-op")
+    | some (st, a) =>
+      match tcpParse a with
+      | .error _ => some (st, "err parse")
+      | .ok p =>
+        let kind := match p.host with
+          | .ip4 _ => "socket" | .ip6 _ => "socket" | .dns _ => "dns" | .dns4 _ => "dns4" | .dns6 _ => "dns6"
+        let ansTxt := (obsField obs "ans").getD (if kind == "socket" then "-" else "fail")
+        let (st, answer) : State × Option (List IpAddr) := match bracketItems ansTxt with
+          | none => (st, none)
+          | some toks => match ipsOf st toks with
+            | some (st', l) => (st', some l)
+            | none => (st, none)
+        let res := match lookupIp p.host p.port answer with
+          | .ok s => "ok " ++ showSock st.names s
+          | .error .resolve => "err resolve"
+          | .error .mismatch => "err mismatch"
+        some (st, kind ++ " ans=" ++ ansTxt ++ " " ++ res)
+  | _ => none
+
 /-! ## Steps -/
 
 def parseScore (s : String) : Option Int :=
@@ -274,7 +459,7 @@ def addrsOf (st : State) : List String → Option (State × List Multiaddr)
     | none => none
     | some (st', a) => (addrsOf st' ts).map fun (st'', as) => (st'', a :: as)
 
-def stepOp (st : State) (ts : List String) (obs : Option String) : State × String :=
+def stepOpMgr (st : State) (ts : List String) (obs : Option String) : State × String :=
   match ts, st.mgr with
   | "cfg" :: rest, _ =>
     match arg? "tcp" rest, arg? "maxout" rest, arg? "cap" rest with
@@ -288,7 +473,7 @@ def stepOp (st : State) (ts : List String) (obs : Option String) : State × Stri
         let m := match capo with
           | none => m
           | some n => { m with peers := presetPeers.map (fun p => (p, ⟨.disconnected, ⟨[], n⟩⟩)) }
-        ({ mgr := some m, names := [] }, "ok")
+        ({ st with mgr := some m, names := [], pub := [] }, "ok")
       | _, _ => (st, "bad-op")
     | _, _, _ => (st, "bad-op")
   | _, none => (st, "bad-op")
@@ -409,7 +594,86 @@ def stepOp (st : State) (ts : List String) (obs : Option String) : State × Stri
       ({ st with mgr := some m' }, showEv out)
     | none => (st, "bad-op")
   | ["occupy"], some m => ({ st with mgr := some m.occupy }, "ok")
+  | ["hdial", p], some m =>
+    match parsePeerTok p with
+    | some peer =>
+      let sel : Option (List String) := obs.bind fun o =>
+        match (o.splitOn " | ").headD "" |>.splitOn " " with
+        | ["ok", "open", _, l] => bracketItems l
+        | _ => none
+      let m0 := match lookupCtx peer m.peers with
+        | none => m
+        | some c => { m with peers := setCtx peer { c with store := guideSelection st.names sel c.store } m.peers }
+      let (m', g, r) := m0.handleDial peer
+      let head := match g with
+        | .self => "err self"
+        | .noAddress => "err no-address"
+        | .inProgress => "ok"
+        | .queued => "ok"
+      let did := match r with
+        | some (.started c (some as)) => "open c" ++ toString c ++ " " ++ showAddrs st.names as
+        | some (.started c none) => "noopen c" ++ toString c
+        | _ => "idle"
+      ({ st with mgr := some m' }, head ++ " " ++ did ++ " | " ++ showStore st m' peer)
+    | none => (st, "bad-op")
+  | ["hdialaddr", a], some _ =>
+    match st.addr a with
+    | none => (st, "bad-op")
+    | some (st, a) =>
+      match lastP2p a with
+      | some _ => (st, "ok queued=1")
+      | none => (st, "err peer-id-missing queued=0")
+  | ["pubadd", a], some m =>
+    match (if a == "-" then some (st, []) else st.addr a) with
+    | none => (st, "bad-op")
+    | some (st, a) =>
+      let (set, r) := publicAdd m.localPeer st.pub a
+      let head := match r with
+        | .ok true => "ok new"
+        | .ok false => "ok known"
+        | .error .empty => "err empty"
+        | .error .differentPeer => "err different-peer"
+      ({ st with pub := set }, head ++ " | [" ++ ",".intercalate (sortStrings (set.map (renderAddr st.names))) ++ "]")
+  | ["pubrm", a], some _ =>
+    match (if a == "-" then some (st, []) else st.addr a) with
+    | none => (st, "bad-op")
+    | some (st, a) =>
+      let (set, r) := publicRemove st.pub a
+      ({ st with pub := set }, toString r ++ " | [" ++ ",".intercalate (sortStrings (set.map (renderAddr st.names))) ++ "]")
+  | ["listening"], some m =>
+    (st, "[" ++ ",".intercalate ((sortStrings (m.listen.map (renderAddr st.names))).eraseDups) ++ "]")
+  | "bulk" :: kind :: items, some m =>
+    let parseItem (st : State) (item : String) : Option (State × Rec) :=
+      match item.splitOn "=" with
+      | [a] => (st.addr a).map fun (st', a') => (st', ⟨a', 0⟩)
+      | [a, sc] => match st.addr a, parseScore sc with
+        | some (st', a'), some v => some (st', ⟨a', v⟩)
+        | _, _ => none
+      | _ => none
+    let rec go (st : State) : List String → Option (State × List Rec)
+      | [] => some (st, [])
+      | i :: is => match parseItem st i with
+        | none => none
+        | some (st', r) => (go st' is).map fun (st'', rs) => (st'', r :: rs)
+    match go st items with
+    | none => (st, "bad-op")
+    | some (st, recs) =>
+      let recs? : Option (List Rec) :=
+        if kind == "multiaddr" then some (recs.filterMap (fun r => Rec.fromMultiaddr r.addr))
+        else if kind == "raw" then some (recs.map (fun r => { r with score := 0 }))
+        else if kind == "record" || kind == "ref" then some recs
+        else none
+      match recs? with
+      | none => (st, "bad-op")
+      | some rs =>
+        let store := extend m.sc ⟨[], Consts.ADDR_MAX_ADDRESSES⟩ rs
+        (st, showStoreRecs st.names store.recs ++ " ord=1")
   | _, _ => (st, "bad-op")
+
+def stepOp (st : State) (ts : List String) (obs : Option String) : State × String :=
+  match stepListener st ts obs with
+  | some r => r
+  | none => stepOpMgr st ts obs
 
 def step (st : State) (line : String) : State × String :=
   match line.splitOn " -> " with
